@@ -251,7 +251,12 @@ func diffWalks(a, b []wnode) *walkDiff {
 			break // the contexts have different shapes from here on; a differing leaf was already found
 		}
 		if x.path != y.path {
-			return &walkDiff{path: x.path, aspect: "structure", a: x.path, b: y.path, rank: 500}
+			// name the place by the URN-bearing path of the two, if one is (an element one twin's list lacks)
+			at := x.path
+			if !urnBearing(at) && urnBearing(y.path) {
+				at = y.path
+			}
+			return &walkDiff{path: at, aspect: "structure", a: x.path, b: y.path, rank: 500}
 		}
 		if x.kind != y.kind {
 			return &walkDiff{path: x.path, aspect: "type", a: x.kind, b: y.kind, rank: 500}
